@@ -442,6 +442,16 @@ def residual_expr(fn_node: ast.AST, atom: Callable[[ast.expr], Optional[bool]]) 
                 env = dict(env)
                 env[s.target.id] = sub(s.value, env)
                 continue
+            if (
+                isinstance(s, ast.Assign) and len(s.targets) == 1 and isinstance(s.targets[0], ast.Tuple) and isinstance(s.value, ast.Tuple)
+                and len(s.targets[0].elts) == len(s.value.elts) and all(isinstance(x, ast.Name) for x in s.targets[0].elts)
+            ):
+                # simultaneous assignment (`left, right = right, left`): all values first, then the bindings
+                vals = [sub(v, env) for v in s.value.elts]
+                env = dict(env)
+                for x, v in zip(s.targets[0].elts, vals):
+                    env[x.id] = v  # type: ignore[attr-defined]
+                continue
             if isinstance(s, ast.If):
                 d, r = simplify_test(sub(s.test, env), atom)
                 then = list(s.body) + ([] if jumps(s.body) else list(rest))
